@@ -7,7 +7,7 @@ import json
 import os
 import random
 
-from . import crypto, gamma, lib, metadata
+from . import crypto, faults, gamma, lib, metadata
 from .traces_verify import oracle_verify
 from .twins import twin_canon
 
@@ -35,6 +35,8 @@ def replay_script(case, seed, idx, workdir):
             answers += ["7", ev["role"], str(ev["value"])]
         elif op == "thresh_bad":
             answers += ["7", ev["role"]] + ([] if ev["role"] == "nosuchrole" else [ev["value"]])
+        elif op == "addsig" and ev["key"] == 3:      # the OpenPGP key: named by its fingerprint, signed through the gpg path
+            answers += ["2", r.choice([faults.FP, faults.FP.upper(), " ".join(faults.FP[i:i + 4] for i in range(0, 40, 4))])]
         elif op == "addsig":
             h = keys.seeds[ev["key"]].hex()
             answers += ["2", r.choice([h, h.upper(), " ".join(h[i:i + 8] for i in range(0, 64, 8))])]
@@ -56,6 +58,11 @@ def replay_script(case, seed, idx, workdir):
     problems = []
     old_input = builtins.input
     builtins.input = fake_input
+    rs = lib.cct("root_signing")
+    old_gpg = (getattr(rs, "SSLIB_AVAILABLE", False), getattr(rs, "gpg_funcs", None))
+    gseed = crypto.seed_for(1403, seed)
+    gpub = crypto.fast_public(gseed).hex()
+    rs.SSLIB_AVAILABLE, rs.gpg_funcs = True, faults.StubGpg(gseed, faults.FP)
     try:
         with lib.stdout_as("utf-8"):
             try:
@@ -68,6 +75,9 @@ def replay_script(case, seed, idx, workdir):
                 ended = None
     finally:
         builtins.input = old_input
+        rs.SSLIB_AVAILABLE, rs.gpg_funcs = old_gpg
+        if old_gpg[1] is None and hasattr(rs, "gpg_funcs"):
+            del rs.gpg_funcs
     script_ends = bool(case["script"]) and case["script"][-1]["op"] in ("write", "abort")
     if ended is not None and ended != script_ends:
         problems.append(f"loop {'ended' if ended else 'kept asking for input'} although the script {'does not end' if not script_ends else 'ends'} with write/abort")
@@ -98,6 +108,10 @@ def replay_script(case, seed, idx, workdir):
                 problems.append("written signed part differs from the working copy the specification defines")
             valid = sorted(k for k in (1, 2) if keys.pub[k] in new["signatures"] and isinstance(new["signatures"][keys.pub[k]], dict)
                            and oracle_verify(keys.pub[k], twin_canon(new["signed"]), new["signatures"][keys.pub[k]].get("signature", "")))
+            ent3 = new["signatures"].get(gpub)
+            if isinstance(ent3, dict) and "other_headers" in ent3 and oracle_verify(
+                    gpub, crypto.gpg_digest(twin_canon(new["signed"]), bytes.fromhex(ent3["other_headers"])), ent3.get("signature", "")):
+                valid.append(3)
             if valid != sorted(fin["valid"]):
                 problems.append(f"valid signers in the written file {valid} differ from the specification's {sorted(fin['valid'])}")
             os.unlink(out_path)
